@@ -47,7 +47,13 @@ def extract(ctx, reduced=True):
     outs = paths(ctx, ZF, args)
     rets = [o for o in outs if o.kind == "return"]
     if len(rets) != 1:
-        raise sx.OutOfSubset(f"z_factor_DAK: expected one returning path, found {len(rets)}")
+        # several returning paths (a shortcut or a fallback next to the root-finder path): the obligations about the equation
+        # and its bracket are about THE path that returns the bracketed root; the other paths are the business of
+        # dak.every_return_is_a_root
+        main = [o for o in rets if isinstance(o.value, tm.T) and any(r_["root"] in tm.postorder(o.value) for r_ in o.heap["ghost"].get("roots", []))]
+        if len(main) != 1:
+            raise sx.OutOfSubset(f"z_factor_DAK: expected one returning path through the root finder, found {len(main)} of {len(rets)}")
+        rets = main
     ret = rets[0]
     roots = ret.heap["ghost"].get("roots", [])
     return ret, [o for o in outs if o.kind == "raise"], roots, outs
@@ -275,10 +281,30 @@ def build(ctx):
                 wit = {k_: model.get(k_) for k_ in ("T", "p", "Tpc", "Ppc")}
                 return with_models(be.Verdict(be.REFUTED, "SMT", witness=wit, detail=f"a returning path of z_factor_DAK inside the validity rectangle does not go through the root finder: it returns {o.value} under {[str(c_)[:80] for c_ in o.pc][:4]}"), o)
             if feasible is None:
+                # the solver cannot decide (exponentials in the residual): look for a point of the path numerically, corners and
+                # edges of the validity rectangle first; only a point at which EVERY condition of the path evaluates to true counts
+                wit = sample_path(list(o.pc) + list(o.facts))
+                if wit is not None:
+                    return with_models(be.Verdict(be.REFUTED, "SMT+sampling", witness=wit, detail=f"a returning path of z_factor_DAK inside the validity rectangle does not go through the root finder (point found numerically): it returns {str(o.value)[:120]}"), o)
                 return be.Verdict(be.UNKNOWN, "SMT", detail="reachability of a returning path without a root is undecided")
         if n_ret == 0:
             raise sx.OutOfSubset("z_factor_DAK: no returning path")
         return be.Verdict(be.PROVED, "SMT", detail=f"{n_ret} returning path(s), each returns a function of the bracketed root")
+
+    def sample_path(conds):
+        import itertools
+        import random as _r
+        rng = _r.Random(ctx.seed)
+        trs = [1.05, 3.0, 1.1, 1.2, 1.5, 2.0, 2.5] + [rng.uniform(1.05, 3.0) for _ in range(12)]
+        prs = [30.0, 1e-4, 29.0, 27.0, 20.0, 10.0, 1.0, 0.1, 0.01] + [rng.uniform(0.0, 30.0) for _ in range(12)]
+        for (Tc_, Pc_), t_r, p_r in itertools.product(((-72.0, 650.0), (-116.0, 667.0), (20.0, 600.0)), trs, prs):
+            env = {"T": t_r * (Tc_ + 459.67) - 459.67, "p": p_r * Pc_, "Tpc": Tc_, "Ppc": Pc_}
+            try:
+                if all(bool(tm.feval(c_, env, {})) for c_ in conds):
+                    return env
+            except Exception:  # noqa: BLE001 - a condition over symbols without a value at this point (e.g. the root): not a witness
+                continue
+        return None
 
     def every_return_replay(w):
         import numpy as np
@@ -287,6 +313,10 @@ def build(ctx):
         if all(isinstance(w.get(k_), (int, float)) for k_ in ("T", "p", "Tpc", "Ppc")):
             cands.append((float(w["T"]), float(w["p"]), float(w["Tpc"]), float(w["Ppc"])))
         cands += [(60.0, 14.7, -102.0, 649.0), (120.0, 19000.0, -50.0, 640.0), (200.0, 3881.4, -102.2, 648.5)]
+        for Tc_, Pc_ in ((-72.0, 650.0), (-116.0, 667.0)):
+            for t_r in (1.05, 1.1, 1.2, 2.0, 3.0):
+                for p_r in (30.0, 29.0, 27.0, 15.0, 1.0, 0.01, 1e-4):
+                    cands.append((t_r * (Tc_ + 459.67) - 459.67, p_r * Pc_, Tc_, Pc_))
         Ff = None
         try:
             ret, root, F, Fs, Zs, zval = code_eos(ctx)
@@ -309,6 +339,89 @@ def build(ctx):
 
     obs.append(Obligation("dak.pure", "z_factor_DAK reads and writes no state that outlives the call (result is a function of the four arguments)", pure, fs, "FRAME", pure_replay))
 
+    # ---------------- Hall-Yarbrough: partial-correctness contract of the Newton loop (termination and the agreement with DAK stay bounded)
+    HY = GAS + "z_factor_hallyarbrough"
+    HYBOX = {"pr": (0.01, 30.0), "tr": (1.05, 3.0), "y@while0": (1e-4, 0.9), "fdum@while0": (-2.0, 2.0)}
+
+    def hy_run():
+        outs = [o for o in paths(ctx, HY, [pr, tr]) if o.kind != "infeasible"]
+        if len(outs) != 1 or outs[0].kind != "return":
+            raise sx.OutOfSubset(f"z_factor_hallyarbrough: {[o.kind for o in outs]} paths where one returning path (loop entered, left by its test) is expected")
+        o = outs[0]
+        W = o.heap["ghost"].get("while_loops", [])
+        if len(W) != 1 or "y" not in W[0]["havoc"] or set(W[0]["havoc"]) - {"y", "fdum"}:
+            raise sx.OutOfSubset("z_factor_hallyarbrough: expected one Newton loop carrying the iterate y (and the last residual)")
+        return o, W[0]
+
+    def hy_spec(y_, pr_, tr_):
+        """published Hall-Yarbrough equation: F(y) = -A p_pr + (y + y^2 + y^3 - y^4)/(1-y)^3 - (14.76t - 9.76t^2 + 4.58t^3) y^2 + (90.7t - 242.2t^2 + 42.4t^3) y^(2.18+2.82t),
+        t = 1/T_pr, A = 0.06125 t exp(-1.2 (1-t)^2);   z = A p_pr / y"""
+        t_ = 1 / tr_
+        A_ = tm.rconst("0.06125") * t_ * tm.exp(-tm.rconst("1.2") * (1 - t_) ** 2)
+        F_ = (-A_ * pr_ + (y_ + y_**2 + y_**3 - y_**4) / (1 - y_) ** 3 - (tm.rconst("14.76") * t_ - tm.rconst("9.76") * t_**2 + tm.rconst("4.58") * t_**3) * y_**2
+              + (tm.rconst("90.7") * t_ - tm.rconst("242.2") * t_**2 + tm.rconst("42.4") * t_**3) * tm.power(y_, tm.rconst("2.18") + tm.rconst("2.82") * t_))
+        return A_, F_
+
+    def hy_replay(w):
+        """the PROPERTY's clause on the real routine: terminates, and agrees with the published DAK root within 5 % on the common
+        range (the bounded family of rt/c06); the sufficient condition proved below is deliberately not the oracle here"""
+        import types
+        from ..rt import c06 as rt
+        r_ = rt.run(types.SimpleNamespace(tier="quick", seed=0))
+        for v in r_["violations"]:
+            if v.get("clause") in ("hy.terminates", "hy.agrees_published_dak"):
+                return {"reproduced": True, "input": v.get("input"), "observed": v.get("observed"), "required": v.get("required"), "clause": v.get("clause")}
+        return {"reproduced": False}
+
+    def sufficient(v):
+        """these obligations are a SUFFICIENT condition for the Hall-Yarbrough clause (the routine is Newton's method on the
+        published equation), not the clause itself: another convergent scheme would satisfy the property too.  A refutation is
+        therefore 'not established' (undecided; the bounded search on the real code then decides), never a violation"""
+        if v.status == be.REFUTED:
+            return be.Verdict(be.UNKNOWN, v.backend, detail="sufficient condition for the Hall-Yarbrough clause not established (the routine is no longer recognisably Newton's method on the published equation): " + (v.detail or "") + (f" separating point {v.witness}" if v.witness else ""), seconds=v.seconds)
+        return v
+
+    def hy_residual():
+        o, W = hy_run()
+        y0 = W["havoc"]["y"]
+        A_, F_ = hy_spec(y0, pr, tr)
+        v = be.prove_equal_cas(W["post"]["fdum"], F_, HYBOX, seed=ctx.seed, npoints=8)
+        if v.status == be.PROVED:
+            # the loop is left exactly when the residual OF THE ITERATE BEFORE THE LAST UPDATE is within 1e-3
+            v2 = be.prove_smt(tm.le(tm.absv(W["post"]["fdum"]), tm.rconst("0.001")), list(o.pc), timeout_ms=5000)
+            if v2.status != be.PROVED:
+                v2.detail = "exit test: " + (v2.detail or "")
+                return sufficient(with_models(v2, o))
+        return sufficient(with_models(v, o))
+
+    def hy_newton():
+        o, W = hy_run()
+        y0 = W["havoc"]["y"]
+        v = be.prove_equal_cas(W["post"]["dfdy"] if "dfdy" in W["post"] else tm.rconst(0), tm.diff(W["post"]["fdum"], y0), HYBOX, seed=ctx.seed, npoints=8)
+        if v.status != be.PROVED:
+            v.detail = "the slope used by the update is not d(residual)/dy: " + (v.detail or "")
+            return sufficient(with_models(v, o))
+        A_, F_ = hy_spec(y0, pr, tr)
+        v = be.prove_equal_cas(W["post"]["y"], y0 - F_ / tm.diff(F_, y0), HYBOX, seed=ctx.seed, npoints=8)
+        if v.status != be.PROVED:
+            v.detail = "the update is not y - F(y)/F'(y): " + (v.detail or "")
+        return sufficient(with_models(v, o))
+
+    def hy_result():
+        o, W = hy_run()
+        y0 = W["havoc"]["y"]
+        A_, F_ = hy_spec(y0, pr, tr)
+        y1 = y0 - F_ / tm.diff(F_, y0)
+        v = be.prove_equal_cas(o.value, A_ * pr / y1, HYBOX, seed=ctx.seed, npoints=8)
+        if v.status != be.PROVED:
+            v.detail = "result is not A p_pr / y with y the improved iterate: " + (v.detail or "")
+        return sufficient(with_models(v, o))
+
+    hy_assume = ["partial correctness: the loop is summarised by its last iteration from a havocked iterate; termination and the iterates staying inside (0, 1) (well-definedness of (1-y)^-3 and y^(2.18+2.82t)) are NOT proved - bounded clauses hy.terminates / hy.agrees_*"]
+    obs.append(Obligation("hy.residual_published", "z_factor_hallyarbrough: the quantity the loop tests is the published Hall-Yarbrough residual F(y; p_pr, 1/T_pr) of the current iterate, and the loop is left only when |F| <= 1e-3", hy_residual, [HY], "CAS", hy_replay, hy_assume))
+    obs.append(Obligation("hy.newton_step", "z_factor_hallyarbrough: the slope is dF/dy (exact symbolic derivative of the extracted residual) and every update is y - F(y)/F'(y)", hy_newton, [HY], "CAS", hy_replay, hy_assume))
+    obs.append(Obligation("hy.result", "z_factor_hallyarbrough returns A p_pr / y with A = 0.06125 t exp(-1.2 (1-t)^2) and y the iterate AFTER the last update (one Newton step past a point whose residual is within 1e-3), never the starting guess", hy_result, [HY], "CAS", hy_replay, hy_assume))
+
     def canary():
         ret, root, F, Fs, Zs, zval = code_eos(ctx)
         return be.prove_int(tm.sub(tm.diff(tm.mul(rho, Zs), rho), tm.rconst("0.7")), {"tr": (1.05, 3.0), "rho": (0.0, 8.0)}, mode=">0", max_boxes=20000)
@@ -321,7 +434,7 @@ def build(ctx):
     from ..oblig import Ctx
     ctx19 = Ctx("C06", ctx.tier, ctx.seed)   # own engine: C19 treats z_factor_DAK as an opaque symbol, C06 must not
     c19obs = {o.id: o for o in c19.build(ctx19)}
-    for oid, nid in (("pvt.rows", "table.z_is_dak"), ("pvt.grid", "table.grid")):
+    for oid, nid in (("pvt.rows", "table.z_is_dak"), ("pvt.grid", "table.grid"), ("pvt.pure", "table.pure")):
         src = c19obs[oid]
         obs.append(Obligation(nid, "tabulation: " + src.statement + " (so root-ness of z_factor_DAK carries to every row of the z-factor column, on the whole 10..maximum_pressure grid)", src.run, src.functions, src.backend, src.replay))
     return obs
